@@ -5,7 +5,7 @@
 Require Import WD.Base.Prelude WD.Base.BStr WD.Model.SubEvents WD.Model.Emitter WD.Model.Fs WD.Model.Reader
                WD.Model.DelayQueue WD.Model.Grouping WD.Model.Pipeline WD.Model.Contract.
 Require Import WD.Proofs.ReaderFixProofs WD.Proofs.ContractProofs WD.Proofs.CoverProofs WD.Proofs.ReplayProofs
-               WD.Proofs.SoundSeqProofs WD.Proofs.BurstProofs.
+               WD.Proofs.SoundSeqProofs WD.Proofs.BurstProofs WD.Proofs.SubEventsProofs.
 
 Local Arguments sep : simpl never.
 
@@ -246,6 +246,118 @@ Section ArrivalCover.
     exists r', k', raws. auto.
   Qed.
 End ArrivalCover.
+
+Lemma child_last_sep_join a n : a <> [] -> last_is_sep a = false -> valid_name n = true -> last_is_sep (join a n) = false.
+Proof. intros Ha Hs Hn. rewrite (join_name a n Ha Hs Hn). now apply child_last_sep. Qed.
+
+(* ================================================================== 4. what the walk fabricates *)
+Definition triple := (bytes * list bytes * list bytes)%type.
+Definition craw_of (rw : raw) : bytes * bool := (r_path rw, Emitter.is_directory (r_mask rw)).
+Definition cmask (rw : raw) : Prop := r_mask rw = IN_CREATE \/ r_mask rw = N.lor IN_CREATE IN_ISDIR.
+Definition kp2 (x : kind * bytes) : bytes * bool := (snd x, kdir (fst x)).
+
+(* os.walk is top-down: the directory of every triple has been listed (as a sub-directory) before; names are valid *)
+Fixpoint gw (seen : list bytes) (l : list triple) : Prop :=
+  match l with
+  | [] => True
+  | (rt, ds, fls) :: l' => In rt seen /\ rt <> [] /\ last_is_sep rt = false /\ forallb valid_name fls = true /\
+                           gw (seen ++ map (join rt) ds) l'
+  end.
+
+Lemma gw_mono l : forall s1 s2, incl s1 s2 -> gw s1 l -> gw s2 l.
+Proof.
+  induction l as [|[[rt ds] fls] l IH]; intros s1 s2 Hi H; cbn [gw] in *; [exact I|].
+  destruct H as (A & B & D & E & F). repeat split; try assumption; [now apply Hi|].
+  apply (IH (s1 ++ map (join rt) ds)); [|exact F]. intros y Hy. apply in_app_iff in Hy as [Hy|Hy]; apply in_app_iff; auto.
+Qed.
+
+Lemma gw_app a : forall s b, gw s a -> gw (s ++ dirs_of a) b -> gw s (a ++ b).
+Proof.
+  induction a as [|[[rt ds] fls] a IH]; intros s b Ha Hb.
+  - cbn [dirs_of flat_map] in Hb. now rewrite app_nil_r in Hb.
+  - cbn [gw app] in *. destruct Ha as (A & B & D & E & F). repeat split; try assumption.
+    apply IH; [exact F|]. unfold dirs_of in Hb. cbn [flat_map] in Hb. fold (dirs_of a) in Hb. now rewrite <- app_assoc.
+Qed.
+
+Lemma walk_gw T : forall root seen, root <> [] -> last_is_sep root = false -> wf_tree T = true -> In root seen ->
+  gw seen (walk root T).
+Proof.
+  induction T as [ds fs IH] using tree_ind'. intros root seen H0 Hs Hwf Hin.
+  rewrite walk_unfold. apply wf_tree_node in Hwf as [Hfs Hds]. cbn [gw]. repeat split; try assumption.
+  assert (G : forall L s, incl L ds -> (forall ns, In ns L -> In (join root (fst ns)) s) ->
+                          gw s (flat_map (fun ns => walk (join root (fst ns)) (snd ns)) L)).
+  { induction L as [|ns L IHL]; intros s HL Hs'; cbn [flat_map]; [exact I|].
+    assert (Hns : In ns ds) by (apply HL; now left).
+    rewrite Forall_forall in IH, Hds. destruct (Hds ns Hns) as [Hv Hw].
+    apply gw_app.
+    - apply (IH ns Hns); [|now apply child_last_sep_join | exact Hw | apply Hs'; now left].
+      rewrite (join_name root (fst ns) H0 Hs Hv). now destruct root.
+    - apply IHL; [intros y Hy; apply HL; now right|]. intros y Hy. apply in_app_iff. left. apply Hs'. now right. }
+  apply G; [apply incl_refl|]. intros ns Hns. apply in_app_iff. right. rewrite map_map. apply in_map_iff. exists ns. auto.
+Qed.
+
+Section SimExact.
+  Variable C : cfg.
+  Hypothesis Hfaults : c_faults C = [].
+  Hypothesis Hsim : c_fix_simulate C = true.
+
+  Lemma sim_dirs_out t rt ds : forall r k acc r' k', cgo C t r k (map (join rt) ds) = Some (r', k') ->
+    exists sd, sim_dirs C r k t rt ds acc = (r', k', acc ++ sd) /\ map craw_of sd = map (fun d => (join rt d, true)) ds /\
+               Forall cmask sd.
+  Proof.
+    induction ds as [|d ds IH]; intros r k acc r' k' H; cbn [map cgo sim_dirs] in *.
+    - injection H as <- <-. exists []. rewrite app_nil_r. repeat split. constructor.
+    - destruct (add_watch C r k t (join rt d)) as [[[r1 k1] wd]|]; [|discriminate].
+      destruct (IH r1 k1 (acc ++ [{| r_wd := wd; r_mask := N.lor IN_CREATE IN_ISDIR; r_cookie := 0; r_name := d; r_path := join rt d |}])
+                  r' k' H) as (sd & E & M & F).
+      exists ({| r_wd := wd; r_mask := N.lor IN_CREATE IN_ISDIR; r_cookie := 0; r_name := d; r_path := join rt d |} :: sd).
+      rewrite E, <- app_assoc. split; [reflexivity|]. split; [cbn [map]; rewrite M; reflexivity|].
+      constructor; [right; reflexivity | exact F].
+  Qed.
+
+  Lemma sim_files_out r rt fls : (forall f, In f fls -> alookup beqb (dirname (join rt f)) (wfp r) <> None) ->
+    forall acc, exists sf, sim_files C r rt fls acc = Done (acc ++ sf) /\ map craw_of sf = map (fun f => (join rt f, false)) fls /\
+                           Forall cmask sf.
+  Proof.
+    induction fls as [|f fls IH]; intros Hl acc; cbn [sim_files map].
+    - exists []. rewrite app_nil_r. repeat split. constructor.
+    - destruct (alookup beqb (dirname (join rt f)) (wfp r)) as [wd|] eqn:E; [|exfalso; apply (Hl f); [now left | exact E]].
+      destruct (IH (fun g Hg => Hl g (or_intror Hg))
+                   (acc ++ [{| r_wd := wd; r_mask := IN_CREATE; r_cookie := 0; r_name := f; r_path := join rt f |}])) as (sf & Es & M & F).
+      exists ({| r_wd := wd; r_mask := IN_CREATE; r_cookie := 0; r_name := f; r_path := join rt f |} :: sf).
+      rewrite Es, <- app_assoc. split; [reflexivity|]. split; [cbn [map]; rewrite M; reflexivity|].
+      constructor; [left; reflexivity | exact F].
+  Qed.
+
+  (* the walk from a state in which the listed directories are watched: one create record per entry found, in os.walk order *)
+  Lemma simulate_exact w : wf_fs w -> forall wk seen r k acc,
+    WInv C (w_fs w) k r ->
+    (forall y, In y seen -> exists e kw, In e (w_fs w) /\ f_path e = y /\ cov k r e kw) ->
+    gw seen wk -> Forall (dir_in_scope C (w_fs w)) (dirs_of wk) ->
+    exists r' k' sims, simulate C r k (w_fs w) wk acc = Done (r', k', acc ++ sims) /\
+      map craw_of sims = map kp2 (flat_map created_step wk) /\ Forall cmask sims.
+  Proof.
+    intros W. induction wk as [|[[rt ds] fls] wk IH]; intros seen r k acc I Hseen Hg Hps.
+    - exists r, k, []. cbn [simulate flat_map map]. rewrite app_nil_r. repeat split. constructor.
+    - cbn [gw] in Hg. destruct Hg as (Hrt & R0 & Rs & Hv & Hg).
+      unfold dirs_of in Hps. cbn [flat_map] in Hps. fold (dirs_of wk) in Hps. apply Forall_app in Hps as [Hps1 Hps2].
+      destruct (cgo_ok C Hfaults w W (map (join rt) ds) k r I Hps1) as (r1 & k1 & Hgo & _ & I1 & (_ & _ & _ & X1) & Cv1 & _).
+      destruct (sim_dirs_out (w_fs w) rt ds r k acc r1 k1 Hgo) as (sd & Esd & Msd & Fsd).
+      assert (Hseen1 : forall y, In y (seen ++ map (join rt) ds) -> exists e kw, In e (w_fs w) /\ f_path e = y /\ cov k1 r1 e kw).
+      { intros y Hy. apply in_app_iff in Hy as [Hy|Hy].
+        - destruct (Hseen y Hy) as (e & kw & He & Ee & Ce). exists e, kw. split; [exact He|]. split; [exact Ee|]. now apply X1.
+        - rewrite Forall_forall in Hps1. destruct (Hps1 y Hy) as (e & He & Ee & _).
+          destruct (Cv1 e He) as (kw & Ce); [now rewrite Ee|]. exists e, kw. auto. }
+      destruct (sim_files_out r1 rt fls) with (acc := acc ++ sd) as (sf & Esf & Msf & Fsf).
+      { intros f Hf. rewrite forallb_forall in Hv. rewrite (join_name rt f R0 Rs (Hv f Hf)).
+        rewrite (ContractProofs.dirname_child rt f R0 Rs (Hv f Hf)).
+        destruct (Hseen1 rt) as (e & kw & He & Ee & (_ & _ & Ce)); [apply in_app_iff; now left|]. rewrite Ee in Ce. now rewrite Ce. }
+      destruct (IH (seen ++ map (join rt) ds) r1 k1 ((acc ++ sd) ++ sf) I1 Hseen1 Hg Hps2) as (r' & k' & sims & Es & Ms & Fs).
+      exists r', k', (sd ++ sf ++ sims). cbn [simulate]. rewrite Esd, Esf, Es. split; [now rewrite <- !app_assoc|]. split.
+      + cbn [flat_map]. rewrite !map_app, Msd, Msf, Ms. cbn [created_step]. rewrite map_app, !map_map. rewrite <- app_assoc. reflexivity.
+      + apply Forall_app. split; [exact Fsd|]. apply Forall_app. now split.
+  Qed.
+End SimExact.
 
 (* the statement of Props/C02.v *)
 Theorem burst_arrival_cover C w k r p rest : c_faults C = [] -> c_fix_simulate C = true ->
